@@ -424,7 +424,7 @@ fn explore<E: Elem>(domain: Vec<E>, probes: Vec<E>, k: usize, depth_cap: usize, 
 
 pub fn run(ctx: &Ctx) -> Outcome {
     let mut out = Outcome::new("model_checking");
-    let (d, k) = ctx.tier.pick((6usize, 4usize), (8, 5));
+    let (d, k) = ctx.tier.pick((7usize, 4usize), (8, 5));
     let depth_cap = d + 4;
     let mut results: Vec<(&'static str, Result<TypeResult, String>)> = vec![];
     {
